@@ -66,10 +66,7 @@ func (r *runner) doClose(cl *CloseSpec, pos int, with []Op) {
 	// A join blocked in onJoin holds the realm's close lock; realm.close
 	// would wait for it on a mutex, which stops the virtual clock.  Let such
 	// handshakes finish first (at most the yield-retry period).
-	for i := 0; i < 70 && r.attachInFlight(); i++ {
-		time.Sleep(time.Second)
-		synctest.Wait()
-	}
+	r.settleHandshakes()
 	ctx := r.closeContext(with)
 	r.mu.Lock()
 	r.closeCtx = ctx
@@ -105,10 +102,38 @@ func (r *runner) doClose(cl *CloseSpec, pos int, with []Op) {
 	}
 	start := make(chan struct{})
 	done := make(chan struct{})
+	var sems []chan struct{}
+	if len(with) > 0 {
+		r.opsByKind["burst"]++
+		r.beginBurst(with)
+		if !r.concurrentJoins {
+			for _, o := range with {
+				if o.Op == "join" || o.Op == "hello_goodbye" {
+					sem, dup := r.joinSem(o.Realm), false
+					for _, x := range sems {
+						dup = dup || x == sem
+					}
+					if !dup {
+						sems = append(sems, sem)
+					}
+				}
+			}
+		}
+	}
 	go func() {
 		defer close(done)
 		defer r.recoverAPI("panic", cl.Kind)
 		<-start
+		for _, sem := range sems {
+			// unsafe burst: wait (durably) for the handshakes released with it
+			tm := time.NewTimer(3 * time.Hour)
+			select {
+			case sem <- struct{}{}:
+				defer func() { <-sem }()
+			case <-tm.C:
+			}
+			tm.Stop()
+		}
 		r.mu.Lock()
 		r.closeStart = r.now()
 		r.mu.Unlock()
@@ -121,12 +146,8 @@ func (r *runner) doClose(cl *CloseSpec, pos int, with []Op) {
 		r.closeRet = r.now()
 		r.mu.Unlock()
 	}()
-	if len(with) > 0 {
-		r.opsByKind["burst"]++
-		r.beginBurst(with)
-		for j := range with {
-			r.execOp(pos, &with[j], start)
-		}
+	for j := range with {
+		r.execOp(pos, &with[j], start)
 	}
 	if r.partial != nil {
 		// what was in flight survives a crash of this process
@@ -156,6 +177,13 @@ func (r *runner) doClose(cl *CloseSpec, pos int, with []Op) {
 		r.mu.Lock()
 		r.closing = false
 		r.mu.Unlock()
+	}
+}
+
+func (r *runner) settleHandshakes() {
+	for i := 0; i < 70 && r.attachInFlight(); i++ {
+		time.Sleep(time.Second)
+		synctest.Wait()
 	}
 }
 
